@@ -12,6 +12,7 @@ import ast
 
 from ..loader import AnalysisError, dotted
 from ..astutil import P, walk_own, calls_in, norm, Defs, leaves, stmt_of, kwarg, need, returns_of, expand, const_value
+from .common import self_attr_stores
 from .. import cfg as cfgmod
 from ..variants import Witness
 from .c08 import alignment_classes
@@ -158,8 +159,17 @@ def rule_r3(p, res):
     # TPS linear system
     tp = p.own_method("ThinPlateSplines", "_build_coefficients")
     r.instance(tp)
-    s = norm(tp.node)
-    r.check("self.v = self.target.points.T.copy()" in s and P("self.coefficients = inv_l.dot(self.y.T)") in s and "np.linalg.svd(self.l)" in s, tp, tp.node, "TPS coefficients solve L c = [target; 0]")
+    dt = Defs(tp.node)
+    st_ = {a_: (s_, expand(v_, dt)) for a_, s_, v_ in self_attr_stores(tp.node)}
+    need("v" in st_ and "y" in st_ and "coefficients" in st_, "C07.R3: ThinPlateSplines._build_coefficients no longer stores v, y and coefficients")
+    v_ok = norm(st_["v"][1]) == "self.target.points.T.copy()"
+    yv = norm(st_["y"][1])
+    y_ok = yv.startswith(("np.hstack([", "np.concatenate([")) and ("self.v" in yv or "self.target.points.T.copy()" in yv) and "np.zeros([2, 3])" in yv
+    cv = st_["coefficients"][1]
+    rhs = cv.args[0] if isinstance(cv, ast.Call) and isinstance(cv.func, ast.Attribute) and cv.func.attr == "dot" and cv.args else None
+    c_ok = rhs is not None and norm(rhs) in ("self.y.T", yv + ".T") and any((dotted(k.func) or "") == "np.linalg.svd" and norm(k.args[0]) == "self.l" for k in calls_in(tp.node) if k.args)
+    r.check(v_ok and y_ok and c_ok, tp, tp.node, "TPS coefficients solve L c = [target; 0]: v = target points (transposed copy), y = [v | 0], coefficients = pinv(L) y^T "
+            "(found v=`%s`, y=`%s`, right-hand side `%s`)" % (norm(st_["v"][1])[:40], yv[:50], norm(rhs)[:30] if rhs is not None else None))
     ti = p.own_method("ThinPlateSplines", "__init__")
     s = norm(ti.node)
     r.check("self.k = self.kernel.apply(self.source.points)" in s and "kernel = R2LogR2RBF(source.points)" in s, ti, ti.node, "the TPS system matrix is built from the kernel on the source points")
